@@ -403,8 +403,13 @@ class Ledger(metaclass=LedgerRegistry):
                 # Nothing to do, network thinks we're already at the latest height.
                 return
 
+            replaces_local_headers = height < len(self.headers)
             added = await self.headers.connect(height, unhexlify(headers))
             if added > 0:
+                if replaces_local_headers:
+                    # headers at or above `height` were overwritten without going through the rewind branch
+                    # (e.g. a competing tip announced at the current height): cached proofs are void
+                    self._tx_cache.clear()
                 height += added
                 self._on_header_controller.add(
                     BlockHeightEvent(self.headers.height, added))
